@@ -55,6 +55,13 @@ def recv_sites(ctx, body):
                     sw.append((b.idx, c[4]))
     for bb, t in calls(body, "Connection::receive_packet"):
         ka = t.args[1].const_bool()
+        if ka is None:
+            # the mode spelled with another two-valued type (listen_common.KeepAliveMode): classified by what it enables
+            from .listen_common import KeepAliveMode
+            km = getattr(ctx, "_keepalive_mode", None) or KeepAliveMode(ctx)
+            ctx._keepalive_mode = km
+            lab = km.classify(ctx.an(body).operand_expr(t.args[1], (bb, "term")))
+            ka = {"true": True, "false": False}.get(lab)
         sws = [s for s, site_bb in sw if site_bb == bb]
         if len(sws) != 1:
             out.append((bb, ka, None, None, None))
@@ -170,10 +177,17 @@ def check(ctx):
     rb = ctx.body(RECV, rule=RK)
     if rb is not None:
         ran = ctx.an(rb)
-        kf = ctx.captured_flag(rb, "keep_alive")
-        gt = ctx.graph_with(rb, [kf], pinned={kf: True})
+        from .listen_common import KeepAliveMode
+        km = getattr(ctx, "_keepalive_mode", None) or KeepAliveMode(ctx)
+        ctx._keepalive_mode = km
+        gt = km.on()
+        ctx.check(gt is not None and km.off() is not None, RK, "C06/keepalive-only-in-config/mode-parameter", rb.loc,
+                  reason="receive_packet's keep-alive parameter is not a two-valued mode of which exactly one value enables the Keep Alive send (type %s, enabling %s)" % (km.kind, sorted(map(str, km.enabling))),
+                  detail="receive_packet(mode): one value sends Keep Alives on ticks, the other never does")
+        if gt is None or km.off() is None:
+            return
         run_dfa(ctx, rb, spec("c06_recv_dfa.json"), RK, "receive_packet[keep_alive=true]", graph=gt)
-        gf = ctx.graph_with(rb, [kf], pinned={kf: False})
+        gf = km.off()
         rev = events.extract(ctx, rb)
         send_bbs = [bb for bb, es in rev.items() if any(e[1].startswith(("send:", "call:localize")) for e in es)]
         reach = set(gf.bb(n) for n in gf.reachable())
